@@ -94,6 +94,15 @@ let dispatch f args = match f, args with
   | "create_tx", [sps; pays; fe; lt; ver; bc] ->
     let n = arg_z bc in
     show_outcome show_tx (create_tx (fun _ -> n) (arg_list arg_spendable sps) (arg_list arg_payable pays) (arg_fee fe) (arg_z lt) (arg_z ver))
+  (* C13 x C07: the byte count comes from C07's model of Tx.stream, not from the caller *)
+  | "create_tx_wire", [sps; pays; fe; lt; ver] ->
+    show_outcome show_tx (create_tx_wire (arg_list arg_spendable sps) (arg_list arg_payable pays) (arg_fee fe) (arg_z lt) (arg_z ver))
+  | "distribute_wire", [v; ins; outs; lt; us; fe] ->
+    show_outcome (show_pair show_tx show_z) (distribute_wire (arg_tx v ins outs lt us) (arg_fee fe))
+  | "recommended_fee_for_tx", [v; ins; outs; lt; us] ->
+    show_outcome show_z (recommended_fee_for_tx (arg_tx v ins outs lt us))
+  | "stream_len", [v; ins; outs; lt; us] ->
+    show_outcome show_z (stream_len (arg_tx v ins outs lt us))
   | "total_out", [v; ins; outs; lt; us] -> show_z (total_out (arg_tx v ins outs lt us))
   | "total_in", [v; ins; outs; lt; us] -> show_outcome show_z (total_in (arg_tx v ins outs lt us))
   | "fee", [v; ins; outs; lt; us] -> show_outcome show_z (fee (arg_tx v ins outs lt us))
